@@ -881,8 +881,9 @@ def obligations(tier):
         ]
 
     CM = circ_menu()
-    NOPS = 2 if not thorough else 3
     SECOND = ('Z', 'CX', 'CCX', 'H')
+    THIRD = ('Z', 'CX')
+    THREE_OP_FIRSTS = ('X', 'PhXZ', 'CX', 'CCX') if thorough else ()
     # (version, qubit order) pairs: register index i holds qs[order[i]]
     VER_ORDER = [('2.0', (2, 0, 1)), ('3.0', (1, 2, 0))]
 
@@ -895,8 +896,8 @@ def obligations(tier):
             names = [cirq.NamedQubit('b'), cirq.GridQubit(0, 1), cirq.LineQubit(5)]
             qs = names  # position i in `names`; register index = order.index(i)
             ops, steps = [], []
-            for i in range(NOPS):
-                cand = CM if i == 0 else [m for m in CM if m[0] in SECOND]
+            for i in range(3 if first in THREE_OP_FIRSTS else 2):
+                cand = CM if i == 0 else [m for m in CM if m[0] in (SECOND if i == 1 else THIRD)]
                 m = next(x for x in CM if x[0] == first) if i == 0 else cand[cx.choose(f'g{i}', len(cand))]
                 _, npar, k, mk, st = m
                 pls = placements(k)
@@ -914,7 +915,7 @@ def obligations(tier):
         add(
             f'circuit.{first}',
             body,
-            f'{NOPS}-operation circuits starting with {first} (later operations from Z**t, CX, CCX, H**t; 2 placements per arity) on Named/Grid/Line qubits with an explicit permuted qubit_order, 2.0 and 3.0: register index of every argument, declared order comment, statement order, fresh symbolic parameters per operation',
+            f'{3 if first in THREE_OP_FIRSTS else 2}-operation circuits starting with {first} (second operation from Z**t, CX, CCX, H**t, third from Z**t, CX; 2 placements per arity) on Named/Grid/Line qubits with an explicit permuted qubit_order, 2.0 and 3.0: register index of every argument, declared order comment, statement order, fresh symbolic parameters per operation',
             points=[{}, {'choose:ver_order': 1, 'choose:g1': 1, 'choose:g2': 2, 'choose:pl1': 1}, {'choose:g1': 3, 'p0_0': 0.5, 'p1_0': 1.0}],
             weight=12,
             opts={'max_paths': 200000},
@@ -1011,20 +1012,21 @@ def main(tier, seed=0, replay=None, only=None, procs=None):
         'exponent_box': [-E, E] if tier == 'quick' else [-8, 8],
         'global_shift_box': [-S, S],
         'radian_box': [-A, A] if tier == 'quick' else [-13, 13],
-        'odd_exponents': 'CZ/CX/CY/controlled gates: t = 2k+1, k symbolic integer in [-3,2]; SWAP/CCZ/CCX/CCY: t pinned to 1 (other exponents have no QASM form and go through KAK)',
+        'free_exponent_obligations': 'gate1.*, rot.*, phased.*, direct.* (operation-level _qasm_ of CZ/CX/CY/SWAP/CCZ/CCX/CCY), controlled.fastpath.*: exponent and global shift are unrestricted reals in their boxes',
+        'odd_exponents': 'whole-circuit export of CZ/CX/CY/controlled gates: t = 2k+1 with k a symbolic integer (k in [-3,2], controlled: [-2,1]); SWAP/CCZ/CCX/CCY: t pinned to 1; controlled.circuit.*: shift pinned to 0 (other values have no QASM form and go through KAK / np.angle)',
         'qubits': '<= 3',
-        'ops_per_circuit': '2 (quick) / 3 (thorough): first op any of a 12-gate menu, later ops from {Z**t, CX, CCX, H**t}; 2 placements per arity',
+        'ops_per_circuit': '2: first op any of a 12-gate menu, second from {Z**t, CX, CCX, H**t}; thorough adds a third op from {Z**t, CX} for first op in {X, PhXZ, CX, CCX}; 2 placements per arity',
         'qubit_orders': 'permutations (2,0,1) with 2.0 and (1,2,0) with 3.0 of Named/Grid/Line qubits',
         'versions': ['2.0', '3.0'],
         'precision': [10, 6, 3],
         'measurement': 'keys a, result_1, "A b", "0"; 1-3 measured qubits; every invert mask (symbolic bits) and every outcome (symbolic bits, forked)',
-        'classical_control': 'KeyCondition, key string, sympy a==k; 1 and 2 conditions; 1- and 2-bit keys; each key measured at most once',
+        'classical_control': 'KeyCondition, key string, sympy a==k; 1 and 2 conditions; 1- and 2-bit keys; controlled sub-operations X**t, rz, Y**t, CZ, CCX, PhasedXZ (one statement) and H**t, CCZ, CCY, IdentityGate(2), GlobalPhase (several / no statements)',
         'tolerance': 1e-7,
         'outside': [
             'QasmUGate.from_matrix / QasmTwoQubitGate.from_matrix (KAK, LAPACK) on symbolic matrices: only concrete instances (fallback.concrete)',
             'decimal rounding to `precision` digits: identity on symbolic values (placeholder token stands for the unrounded number); exercised by concrete validation points only',
             'exponents within 1e-9 (2*10^-precision in circuit.precision) of, but not equal to, a half-integer for PhasedXPowGate (epsilon band of the exporter)',
-            'repeated measurement keys, qudits, confusion maps (no OpenQASM form), BitMaskKeyCondition (raises)',
+            'classical control that reads a key measured more than once (Cirq keeps a record per measurement, OpenQASM overwrites the register), qudits, confusion maps (no OpenQASM form), BitMaskKeyCondition (raises), cirq.If (experimental)',
             'sx/sxdg are accepted for 2.0 although the original qelib1.inc (arXiv:1707.03429) lacks them (Qiskit qelib1.inc has them); for 3.0 sxdg is read leniently except in v3.stdgates_only',
             'header comment text, blank-line layout, file saving',
         ],
